@@ -1,1 +1,28 @@
-(* C17 -- theorems to be stated here. *)
+(* C17 -- no leak through Debug output or dropped memory: PARTIAL, level `other` (see MANIFEST).
+   The statements below are about the model's transcription of the Debug / Drop impls and are true
+   by construction; the assurance for this property comes from the measurements on the real objects
+   (Debug text compared with a reference instance; drop probe), see gen/props/c17.py and DESIGN.md.
+   Not expressible in the model: the bytes of the object's storage after drop. *)
+From BM Require Import BlockModes Plumbing Toy Ctr Belt Stream Cts Interp Leak.
+
+(* every type with its own Debug impl in /repo prints no byte of its state *)
+Theorem C17_opaque_debug : forall o, (forall k key wst, o <> OWrap k key wst) -> debug_bytes o = [].
+Proof. exact opaque_debug. Qed.
+Print Assumptions C17_opaque_debug.
+
+Theorem C17_fresh_wrapper_debug : forall (St : Type) (K : score St) c, debug_payload (from_core K c) = [].
+Proof. intros. apply fresh_wrapper_debug. Qed.
+Print Assumptions C17_fresh_wrapper_debug.
+
+(* known finding F3, as a refutation of "Debug never shows state" for the wrapper aliases: after 3
+   bytes of an 8-byte block the Debug payload is the remaining 5 keystream bytes *)
+Theorem C17_wrapper_debug_refuted :
+  exists wst out, f3_witness = Ok (wst, out) /\ debug_payload wst <> [] /\
+                  out ++ debug_payload wst = c_E f3_cipher [0;0;0;0;0;0;0;0]%N.
+Proof. exact wrapper_debug_leaks. Qed.
+Print Assumptions C17_wrapper_debug_refuted.
+
+(* the fields the Drop impls overwrite cover all chaining material of the model's objects *)
+Theorem C17_dropped_is_zero : forall o, Forall (fun x => x = 0%N) (chaining_bytes (dropped o)).
+Proof. exact dropped_is_zero. Qed.
+Print Assumptions C17_dropped_is_zero.
